@@ -413,14 +413,14 @@ fn trunc<T: std::fmt::Debug>(t: &T) -> String {
 }
 
 pub fn routing(ctx: &Ctx) -> Report {
-    let n = ctx.n(4_000, 1_000_000);
+    let n = ctx.n(40_000, 50_000_000);
     par_cases(ctx, "routing", n, ctx.secs(30, 700), |i, rng, rep| run_case(i, rng, rep, MuxOpts { nobody: true, hostile_ids: false }, "routing", false))
 }
 
 /// Responses whose INTEGER message ID lies outside 0..2^31-1 and aliases an outstanding ID
 /// after 32-bit truncation must be delivered to nobody.
 pub fn hostile_ids(ctx: &Ctx) -> Report {
-    let n = ctx.n(1_000, 100_000);
+    let n = ctx.n(10_000, 5_000_000);
     par_cases(ctx, "hostile_ids", n, ctx.secs(15, 200), |i, rng, rep| run_case(i, rng, rep, MuxOpts { nobody: true, hostile_ids: true }, "hostile_ids", false))
 }
 
@@ -641,6 +641,6 @@ fn entry_dn(e: &ldap3::ResultEntry) -> String {
 }
 
 pub fn abandoned(ctx: &Ctx) -> Report {
-    let n = ctx.n(2_000, 200_000);
+    let n = ctx.n(20_000, 10_000_000);
     par_cases(ctx, "abandoned", n, ctx.secs(15, 300), |i, rng, rep| run_abandon_case(i, rng, rep, false))
 }
